@@ -366,13 +366,87 @@ pub fn islands(r: &mut Report, seed: u64) {
     }
 }
 
+/// A slow peer in the bootstrap list: next to a quick live server the node is given a peer whose first answer
+/// takes seconds (long after the request timed out) and whose later answers take 550..900 ms - slower than the
+/// 500 ms floor of the request timeout, quicker than the estimate the first answer produced. Joining must keep
+/// working: every bootstrapped() call returns true and the node stays alive.
+pub fn slow_peer(r: &mut Report, seed: u64) {
+    use crate::bencode::B;
+    use crate::krpc::*;
+    r.eval();
+    let mut rng = Rng::new(seed);
+    let w = World::with_cfg(seed, NetCfg { lat_min: MS, lat_max: 40 * MS, random_ties: true }, TraceLevel::Off);
+    let case = json!({"class":"slow-peer","seed":seed.to_string()});
+    let s = w.spawn(NodeSpec::server(Ipv4Addr::new(10, 52, 0, 1), &[])).expect("server");
+    let p_addr = SocketAddrV4::new(Ipv4Addr::new(10, 52, 0, 2), 6881);
+    let p = w.raw(p_addr);
+    let p_id: [u8; 20] = rng.array();
+    let first_delay = (2 + rng.below(8)) * SEC;
+    let later = (550 + rng.below(350)) * MS;
+    let answered = std::rc::Rc::new(std::cell::Cell::new(0u32));
+    {
+        let a2 = answered.clone();
+        let s_addr = s.addr;
+        w.set_responder(Some(Box::new(move |w, sock, d| {
+            if sock != p {
+                return false;
+            }
+            let Some(q) = Krpc::parse(&d.bytes) else { return true };
+            if q.y != b'q' {
+                return true;
+            }
+            let mut rd = vec![("id", B::bytes(&p_id))];
+            if q.target().is_some() {
+                rd.push(("nodes", B::Bytes(nodes_bytes(&[([0x11; 20], s_addr)]))));
+            }
+            let k = a2.get();
+            a2.set(k + 1);
+            let delay = if k == 0 { first_delay } else { later };
+            w.raw_send_delayed(sock, &response(&q.t, B::dict(rd), Some(&d.from), Some(&VERSION_RS6)).encode(), d.from, delay);
+            true
+        })));
+    }
+    let spec = if rng.bool() { NodeSpec::server(Ipv4Addr::new(10, 52, 0, 5), &[s.addr, p_addr]) } else { NodeSpec::client(Ipv4Addr::new(10, 52, 0, 5), &[s.addr, p_addr]) };
+    let x = w.spawn(spec).expect("x");
+    let mut results = vec![];
+    for k in 0..5 {
+        let res = w.block_on(x.adht.bootstrapped(), 120 * SEC);
+        results.push(res);
+        if res != Some(true) {
+            break;
+        }
+        // lookups that contact the slow peer again
+        let a = x.adht.clone();
+        let t = Id::from(rng.array::<20>());
+        w.block_on(async move { drop(a.find_node(t).await) }, 60 * SEC);
+        w.run_for(if k == 0 { first_delay + SEC } else { 2 * SEC });
+    }
+    let alive = w.block_on(x.adht.info(), 5 * SEC).is_some();
+    r.count("slow_peer_scenarios");
+    r.add("slow_peer/answers_of_the_slow_peer", answered.get() as u64);
+    if answered.get() >= 2 {
+        r.nontrivial(mix(seed, later));
+    }
+    if results.iter().any(|x| *x != Some(true)) || !alive {
+        r.violation("join/slow-peer/not-bootstrapped-or-dead", "next to a quick live server the node was given a slow peer (first answer after seconds, later ones after 550..900 ms): bootstrapped() stopped returning true or the node died", case.clone(), json!({"bootstrapped_results": format!("{results:?}"), "node_answers_info": alive, "first_delay_ms": first_delay / MS, "later_delay_ms": later / MS}));
+    }
+    drop(x);
+    drop(s);
+    w.shutdown();
+    for (thread, loc, msg) in crate::take_panics() {
+        r.violation(&format!("panic/{loc}"), &format!("thread {thread} panicked: {msg}"), case.clone(), json!({}));
+    }
+}
+
 pub fn run(a: &Args) -> Report {
     let mut r = Report::new("C13");
     if let Some(path) = &a.replay {
         let v: Value = serde_json::from_str(&std::fs::read_to_string(path).unwrap_or_default()).unwrap_or_default();
         let c = &v["case"];
         let seed = c["seed"].as_str().and_then(|s| s.parse().ok()).unwrap_or(1);
-        if c["class"] == "islands" {
+        if c["class"] == "slow-peer" {
+            slow_peer(&mut r, seed);
+        } else if c["class"] == "islands" {
             islands(&mut r, seed);
         } else if c["class"] == "dead-or-late" {
             dead_and_late(&mut r, seed, c["mode"].as_u64().unwrap_or(0) as usize);
@@ -391,6 +465,8 @@ pub fn run(a: &Args) -> Report {
             r.count("dead_or_late_scenarios");
             let s = rng.u64();
             super::guarded(&mut r, json!({"class":"islands","seed":s.to_string()}), |r| islands(r, s));
+            let s = rng.u64();
+            super::guarded(&mut r, json!({"class":"slow-peer","seed":s.to_string()}), |r| slow_peer(r, s));
             continue;
         }
         let servers = *rng.pick(&[1usize, 2, 3, 4, 5, 7, 10, 14, 19, 20, 20]);
